@@ -47,19 +47,63 @@ def reset_task(chk: Check, repo: Repo, mod: str, cname: str, off_targets: tuple[
     kw = {k.arg: k.value for k in tasks[0].keywords}
     tgt = ast.unparse(kw["target"]) if "target" in kw else "?"
     # the target turns the device off: one of the known forms, or a method of the class that does
+    ci = repo.cls(mod, cname)
+
     def turns_off(t: str) -> tuple[bool, bool]:
         """(turns off, resets the remote value as well)"""
         if t in off_targets:
             return True, t == "self.set_off"  # set_off sends a telegram that loops back through the remote value
         if t.startswith("self.") and t.count(".") == 1:
-            mth = repo.lookup_method(repo.cls(mod, cname), t[5:])
+            mth = repo.lookup_method(ci, t[5:])
             if mth is not None:
                 cs = [(call_name(c), [ast.unparse(a) for a in c.args]) for c in calls(mth.node)]
                 via_rv = any(n_.endswith(".update_value") and a_ == ["False"] for n_, a_ in cs)
                 direct = any(n_ == "self._set_internal_state" and a_ == ["False"] for n_, a_ in cs)
-                return (via_rv or direct), via_rv
+                # the plain form: the remote value's value and the device state assigned False, listeners told
+                stores = {ast.unparse(t_): ast.unparse(n_.value) for n_ in walk_local(mth.node) if isinstance(n_, ast.Assign) for t_ in n_.targets}
+                rv_store = any(k.endswith("remote_value.value") and v == "False" for k, v in stores.items())
+                state_store = stores.get("self.state") == "False" and any(n_ == "self.after_update" for n_, _ in cs)
+                return (via_rv or direct or state_store), (via_rv or rv_store)
         return False, False
+
+    def reaches_counter(start: str) -> list[str]:
+        """methods on the way from `start` to the press counter (bump_and_get_counter / a start of the context task),
+        following self-calls, partial(self.m, ..) and - through `<remote value>.update_value(..)` - the
+        after_update_cb handed to the remote value in __init__"""
+        cbs = [k.value.attr for c in calls(ini.node) for k in c.keywords if k.arg == "after_update_cb" and isinstance(k.value, ast.Attribute) and ast.unparse(k.value.value) == "self"]
+        seen: dict[str, str | None] = {start: None}
+        work = [start]
+        while work:
+            m = work.pop()
+            mth = repo.lookup_method(ci, m)
+            if mth is None:
+                continue
+            hit = m == "bump_and_get_counter" or any(call_name(c).endswith("start_task") and c.args and ast.unparse(c.args[0]) == "self._context_task" for c in calls(mth.node))
+            if hit:
+                path = [m]
+                while seen[path[-1]] is not None:
+                    path.append(seen[path[-1]])
+                return path[::-1]
+            nxt: list[str] = []
+            for c in calls(mth.node):
+                n_ = call_name(c)
+                if n_.startswith("self.") and n_.count(".") == 1:
+                    nxt.append(n_[5:])
+                if n_.endswith(".update_value"):
+                    nxt += cbs
+                for a in list(c.args) + [k.value for k in c.keywords]:
+                    if isinstance(a, ast.Attribute) and ast.unparse(a.value) == "self" and repo.lookup_method(ci, a.attr) is not None:
+                        nxt.append(a.attr)
+            for x in nxt:
+                if x not in seen:
+                    seen[x] = m
+                    work.append(x)
+        return []
     off_ok, rv_ok = turns_off(tgt)
+    if repo.lookup_method(ci, "bump_and_get_counter") is not None:
+        start = tgt[5:] if tgt.startswith("self.") and tgt.count(".") == 1 else (ast.unparse(kw["target"].args[0])[5:] if isinstance(kw.get("target"), ast.Call) and call_name(kw["target"]) == "partial" and kw["target"].args else "")
+        path = reaches_counter(start) if start else ["?"]
+        chk.ob("timed-reset-is-not-counted-as-a-telegram", ini.site(tasks[0]), not path, f"{cname}: the reset target {tgt} " + ("does not reach the press counter" if not path else f"reaches the press counter ({' -> '.join(path)}): the timer is counted like a telegram - two 'on' telegrams further apart than the context timeout are joined by the reset between them, one 'off' telegram is reported as a double 'off'"), key=f"reset-counted|{cname}")
     ok = isinstance(kw.get("wait_before_start"), ast.Name) and kw["wait_before_start"].id == "reset_after" and "repeat_after" not in kw and "restart_after_reconnect" not in kw and off_ok
     # ... and takes the remote value along: a reset that only changes the device's own state leaves the remote value
     # 'on' - the next 'on' that arrives as a read response is no change for it and is dropped (no 'on', no new timer)
